@@ -111,3 +111,10 @@ Theorem C07_source_impl_bounds :
   bounds_of "FromIterator<T> for GenericArray<T,N>" = Some ["N:ArrayLength"] /\
   bounds_of "FromIterator<T> for Box<GenericArray<T,N>>" = Some ["N:ArrayLength"].
 Proof. repeat split. Qed.
+
+(* what a wrong number of items looks like to the caller (regenerated): the panic of collect / from_iter names the
+   expected count, the error of the try_ forms is LengthError *)
+Theorem C07_source_failures :
+  thin_of "fn" "from_iter_length_fail" = Some "panic ! (""GenericArray::from_iter expected {length} items"")" /\
+  thin_of "core::fmt::Display for LengthError" "fmt" = Some "f . write_str (""LengthError: Slice or iterator does not match GenericArray length"")".
+Proof. split; reflexivity. Qed.
